@@ -174,7 +174,7 @@ func c05(c *Ctx) {
 				c.R.Unknown(load.FuncName(fc)+": IsInvalid arm", c.pos(cr.Pos()), "no IsInvalid(err) test of the apply error found")
 			} else {
 				h := cfgx.LoopHeader(loop)
-				r, w := cfgx.ReachesAvoidingBlocks(invalidTrue, h, through, nil, c.posf())
+				r, w := cfgx.ReachesAvoidingBlocks(union(invalidTrue, failEdges(cr)), h, through, nil, c.posf())
 				c.R.Check(!r, load.FuncName(fc)+": invalid arm records unsynced", c.pos(cr.Pos()), "the continuing IsInvalid arm appends a record that is not Synced", "the IsInvalid arm continues without recording the resource as unsynced: it silently counts as synced", w...)
 			}
 		} else {
@@ -211,7 +211,8 @@ func c05(c *Ctx) {
 				c.R.Unknown(load.FuncName(pt)+": IsInvalid arm", c.pos(cr.Pos()), "no IsInvalid(err) test of the apply error found")
 			} else {
 				h := cfgx.LoopHeader(loop)
-				r, w := cfgx.ReachesAvoidingBlocks(invalidTrue, h, through, nil, c.posf())
+				// from every failure edge of the apply (not only the IsInvalid arm)
+				r, w := cfgx.ReachesAvoidingBlocks(union(invalidTrue, failEdges(cr)), h, through, nil, c.posf())
 				c.R.Check(!r, load.FuncName(pt)+": invalid arm nils cds[i]", c.pos(cr.Pos()), "the continuing IsInvalid arm stores nil into cds[i]", "the IsInvalid arm continues without clearing cds[i]: the rejected resource is later observed and reported Synced", w...)
 				// the applied object is cds[i]
 				c.R.Check(flow.Strict.Any(cfgx.CallArgs(cr)[1], func(v ssa.Value) bool { ia, ok := v.(*ssa.IndexAddr); return ok && ia.X == cdsSlice }), site(cr)+" applies cds[i]", c.pos(cr.Pos()), "the object applied is cds[i]", "the object applied is not the slot that is later observed")
@@ -406,6 +407,46 @@ func c05(c *Ctx) {
 				}
 			}
 			c.R.Check(found, load.FuncName(rec)+": Unknown marking exists", c.pos(comp[0].Pos()), "unseen custom conditions are set to Unknown", "custom conditions not re-asserted after a fatal error are not set Unknown")
+		}
+	}
+
+	c.R.Rule("R5.7", "explicit XR readiness is read from the final desired state: after the pipeline, from the last step's desired composite", 2,
+		"a readiness mark that a later step retracted (READY_UNSPECIFIED) would stick: the XR is reported Ready although its composed resources are not")
+	if fc != nil {
+		var loop map[*ssa.BasicBlock]bool
+		var hdr *ssa.BasicBlock
+		if r := calls(fc, runFnInv); len(r) == 1 {
+			loop = cfgx.LoopOf(r[0].Block())
+			if loop != nil {
+				hdr = cfgx.LoopHeader(loop)
+			}
+		}
+		n := 0
+		for _, b := range fc.Blocks {
+			for _, in := range b.Instrs {
+				st, ok := in.(*ssa.Store)
+				if !ok || !isFieldSel(st.Addr, "composite.CompositeResource", "Ready") {
+					continue
+				}
+				n++
+				c.R.Check(loop != nil && !loop[b], load.FuncName(fc)+": composite Ready set after the pipeline #"+itoa(n), c.pos(st.Pos()), "the explicit readiness is taken once, after the last step", "the XR's explicit readiness is set inside the pipeline loop: an earlier step's mark survives a later step that does not repeat it")
+			}
+		}
+		nr := 0
+		for _, x := range cfgx.Calls(fc, nil) {
+			if !strings.HasSuffix(cfgx.CalleeName(x), "v1.Resource).GetReady") {
+				continue
+			}
+			gc, ok := cfgx.Receiver(x).(*ssa.Call)
+			if !ok || !strings.HasSuffix(cfgx.CalleeName(gc), "v1.State).GetComposite") {
+				continue
+			}
+			nr++
+			phi, isPhi := cfgx.Receiver(gc).(*ssa.Phi)
+			c.R.Check(loop != nil && !loop[x.Block()] && isPhi && phi.Block() == hdr, site(x)+" final-desired", c.pos(x.Pos()), "reads the readiness of the last step's desired composite", "the XR readiness is not read from the final desired state")
+		}
+		if n == 0 || nr == 0 {
+			c.R.Unknown(load.FuncName(fc)+": composite readiness", c.pos(fc.Pos()), "expected the desired composite's GetReady() to be read and stored into CompositeResource.Ready")
 		}
 	}
 
